@@ -124,6 +124,21 @@ func runScratch(c *core.Ctx) []core.Obligation {
 				return ok && in.Block() != nil && body[in.Block()]
 			}
 			seen := map[string]bool{}
+			// a reset counts when every iteration performs it: it dominates the decode call it
+			// protects, or it dominates every back edge (a reset at the bottom of the body)
+			everyIteration := func(reset ssa.Instruction, use ssa.Instruction) bool {
+				rb, ub := reset.Block(), use.Block()
+				if rb == ub || rb.Dominates(ub) {
+					return true
+				}
+				all := true
+				for _, p := range h.Preds {
+					if body[p] && !(rb == p || rb.Dominates(p)) {
+						all = false
+					}
+				}
+				return all
+			}
 			for blk := range body {
 				if onFailingPath(blk) {
 					continue
@@ -172,12 +187,12 @@ func runScratch(c *core.Ctx) []core.Obligation {
 								for _, in2 := range lb.Instrs {
 									switch y := in2.(type) {
 									case *ssa.Store:
-										if rootLocal(y.Addr) == al && !dependsOnCall(y.Val, call) {
+										if rootLocal(y.Addr) == al && !dependsOnCall(y.Val, call) && everyIteration(y, call) {
 											resetFound = true
 										}
 									case *ssa.Call:
 										// reflect.Value.Set(x, zero) where x is loaded from the local
-										if n2 := calleeName(y.Common()); n2 == "(reflect.Value).Set" && len(y.Common().Args) == 2 && rootLocal(y.Common().Args[0]) == al {
+										if n2 := calleeName(y.Common()); n2 == "(reflect.Value).Set" && len(y.Common().Args) == 2 && rootLocal(y.Common().Args[0]) == al && everyIteration(y, call) {
 											resetFound = true
 										}
 									}
@@ -197,7 +212,7 @@ func runScratch(c *core.Ctx) []core.Obligation {
 							for lb := range body {
 								for _, in2 := range lb.Instrs {
 									if y, ok := in2.(*ssa.Call); ok && calleeName(y.Common()) == "(reflect.Value).Set" && len(y.Common().Args) == 2 {
-										if y.Common().Args[0] == arg || (rootLocal(arg) != nil && rootLocal(y.Common().Args[0]) == rootLocal(arg)) {
+										if (y.Common().Args[0] == arg || (rootLocal(arg) != nil && rootLocal(y.Common().Args[0]) == rootLocal(arg))) && everyIteration(y, call) {
 											resetFound = true
 										}
 									}
@@ -214,7 +229,7 @@ func runScratch(c *core.Ctx) []core.Obligation {
 						if resetFound {
 							b.addP(props, core.Discharged, key, c.InstrPos(call), "reset inside the loop before the next member is decoded into it")
 						} else {
-							b.addP(props, core.Violation, key, c.InstrPos(call), fmt.Sprintf("%s decodes every member of a container into the same %s, created before the loop, and never resets it inside the loop: a member that leaves the destination untouched (null, an absent field) inherits the previous member's value", shortName(fn), id))
+							b.addP(props, core.Violation, key, c.InstrPos(call), fmt.Sprintf("%s decodes every member of a container into the same %s, created before the loop, and does not reset it on every iteration: a member that leaves the destination untouched (null, an absent field) inherits the previous member's value", shortName(fn), id))
 						}
 					}
 				}
@@ -280,6 +295,76 @@ func runScratch(c *core.Ctx) []core.Obligation {
 				b.addP([]string{"C01"}, core.Violation, key, c.InstrPos(ci), fmt.Sprintf("%s appends into the buffer it keeps in %s on a path where the buffer was neither Reset nor newly allocated: the second call writes the previous documents again in front of the current one", shortName(fn), field))
 			} else {
 				b.addP([]string{"C01"}, core.Discharged, key, c.InstrPos(ci), "the kept buffer is emptied or freshly allocated on every path before it is appended to")
+			}
+		}
+	}
+
+	// a scratch slice that is reset by truncation (x = x[:0]) keeps its old elements in the backing
+	// array; decodeSlice decodes element i in place, and an element decoder leaves its target
+	// untouched for null — so the elements must be cleared as well, or the slice replaced
+	{
+		for _, fn := range fns {
+			for _, blk := range fn.Blocks {
+				for _, in := range blk.Instrs {
+					st, ok := in.(*ssa.Store)
+					if !ok {
+						continue
+					}
+					al, ok := st.Addr.(*ssa.Alloc)
+					if !ok || !isSliceType(derefType(al.Type())) {
+						continue
+					}
+					sl, ok := st.Val.(*ssa.Slice)
+					if !ok || sl.High == nil {
+						continue
+					}
+					if k, isK := constInt(sl.High); !isK || k != 0 {
+						continue
+					}
+					ld, ok := sl.X.(*ssa.UnOp)
+					if !ok || ld.X != ssa.Value(al) {
+						continue
+					}
+					// the alloc is handed to a decode call by address
+					decoded := false
+					for _, ref := range *al.Referrers() {
+						if cv, isCv := ref.(*ssa.Convert); isCv {
+							for _, r2 := range *cv.Referrers() {
+								if _, isCall := r2.(*ssa.Call); isCall {
+									decoded = true
+								}
+							}
+						}
+					}
+					if !decoded {
+						continue
+					}
+					key := "scratch-slice-cleared:" + shortName(fn) + ":" + al.Comment
+					cleared := false
+					for _, b2 := range fn.Blocks {
+						for _, in2 := range b2.Instrs {
+							call, isCall := in2.(*ssa.Call)
+							if !isCall {
+								continue
+							}
+							if bi, isB := call.Call.Value.(*ssa.Builtin); isB && bi.Name() == "clear" && len(call.Call.Args) == 1 {
+								if l2, isLd := call.Call.Args[0].(*ssa.UnOp); isLd && l2.X == ssa.Value(al) {
+									cleared = true
+								}
+								if s2, isSl := call.Call.Args[0].(*ssa.Slice); isSl {
+									if l2, isLd := s2.X.(*ssa.UnOp); isLd && l2.X == ssa.Value(al) {
+										cleared = true
+									}
+								}
+							}
+						}
+					}
+					if cleared {
+						b.addP([]string{"C02"}, core.Discharged, key, c.InstrPos(st), "truncated and cleared between uses")
+					} else {
+						b.addP([]string{"C02"}, core.Violation, key, c.InstrPos(st), shortName(fn)+" reuses the scratch slice "+al.Comment+" by truncating it: the old elements stay in the backing array, the slice decoder decodes element i in place and a null element leaves it untouched — {\"a\":[\"x\",\"y\"],\"b\":[\"z\",null]} gives b = [\"z\",\"y\"] where encoding/json gives [\"z\",\"\"]")
+					}
+				}
 			}
 		}
 	}
